@@ -80,6 +80,7 @@ var mutNames = []string{
 	"drop-account", "add-account", "drop-slot-writes", "drop-read", "add-read", "alter-post-value",
 	"alter-balance", "alter-nonce", "alter-code", "move-change", "duplicate-entry", "swap-accounts",
 	"drop-change", "write-to-read", "read-to-write", "add-noop-balance", "add-write",
+	"append-tx-over-gas-pool", // not an access-list edit, handled by the C33 runner
 }
 
 func u(v uint64) *uint256.Int { return new(uint256.Int).SetUint64(v) }
